@@ -83,7 +83,7 @@ func (vm *VM) deepEq(a, b Value, depth int) *smt.Term {
 		if !ok {
 			return smt.False
 		}
-		return smt.Eq(x.T, y.T)
+		return smt.Eq(vm.forceBig(x), vm.forceBig(y))
 	case RatVal:
 		y, ok := b.(RatVal)
 		if !ok {
@@ -335,4 +335,19 @@ func registerEnv(vm *VM) {
 		}
 		return fromBoolTerm(vm.deepEq(blob.V, want.V, 0))
 	})
+}
+
+// forceBig returns the term of a big value, normalising a lazy numerator/denominator.
+func (vm *VM) forceBig(b BigVal) *smt.Term {
+	if b.T != nil {
+		return b.T
+	}
+	if b.Lazy != nil {
+		n, d := vm.ratNormalize(RatVal{b.Lazy.N, b.Lazy.D})
+		if b.Lazy.Num {
+			return n
+		}
+		return d
+	}
+	return smt.Int64(0)
 }
